@@ -127,6 +127,13 @@ def h_range(sx, shape):
     sx.note('expect', {'start': start, 'end': end, 'status': status,
                        'content_range': headers.get('Content-Range')})
     from pysx.core import sx_and, sx_or, sx_implies
+    if start is None or end is None or 'Content-Range' not in headers:
+        # a present, well-formed Range header answered as if it were absent
+        det = {'start': start, 'end': end, 'status': status, 'cr': headers.get('Content-Range')}
+        for cond, exp in _expected(shape, a, b, s, L):
+            label = {'206': 'C13.suffix' if kind == '-s' else 'C13.sat', '416': 'C13.unsat'}.get(exp[0], 'C13.sat')
+            sx.prove(sx_implies(cond, False), label, detail=det)
+        return
     cr_shape, cr_nums = _parse_content_range(headers['Content-Range'])
     for cond, exp in _expected(shape, a, b, s, L):
         if exp[0] == '206':
